@@ -726,7 +726,9 @@ fn guard_script(rng: &mut Rng, log: &mut Vec<String>) -> Result<u8, String> {
         log.push(format!("first poll of the new subscriber -> {r:?}"));
         // (if subscribe() completed while the guard was held and the guard stored a value afterwards, that
         // value is an update the subscriber has not observed: Ready is right then)
-        if r != Poll::Pending && !(r == Poll::Ready(Some(value)) && log.iter().any(|l| l.ends_with("-> Ready")) && log.iter().any(|l| l.starts_with("guard.set"))) {
+        // (subscribe() overlaps whatever the guard stored after the call's first poll: the call may take effect
+        // before or after that store, so Ready with the stored value is right as well then)
+        if r != Poll::Pending && !(r == Poll::Ready(Some(value)) && log.iter().any(|l| l.starts_with("guard.set"))) {
             return Err(format!("[C01|C16] a subscriber created by subscribe() while a write guard was held answered {r:?} on its first poll although nothing was stored after the call completed"));
         }
         drop(fresh);
@@ -1070,7 +1072,10 @@ fn guard_script(rng: &mut Rng, log: &mut Vec<String>) -> Result<u8, String> {
                 return Err("the write guard does not dereference to the stored value".into());
             }
         }
-        // subscribers registered *before* the guard must be woken by updates made through it
+        drop(g);
+        log.push("write guard dropped".into());
+        // subscribers registered *before* the guard must have been woken by updates made through it - at the
+        // latest when the guard is released (before that the update is not available to anybody)
         if version > before {
             for i in 0..k {
                 if let Some(f) = &reg_flags[i] {
@@ -1080,8 +1085,6 @@ fn guard_script(rng: &mut Rng, log: &mut Vec<String>) -> Result<u8, String> {
                 }
             }
         }
-        drop(g);
-        log.push("write guard dropped".into());
         // C19 at this quiescent moment: some subscribers own a granted, not yet polled lock
         let counts = (ob.observable_count(), ob.subscriber_count(), ob.strong_count());
         if counts != (2, k, 2 + k) {
